@@ -80,19 +80,45 @@ func bfsC12(tier string) *BFSDef {
 	return &BFSDef{Name: "c12-kernel-vs-tables", Base: map[string]any{"fix": "std4", "init": []string{}}, Alphabet: al, Depth: d, TailBurst: 2, TailDepth: td}
 }
 
+// burst4Jobs: every burst of three and of four operations (nothing read in between) over the eight
+// operations of a log rotation - delete / Remove / recreate / re-Add / rename / hold open - from {Add f},
+// followed by quiescence, a write and a Remove: histories in which several watch descriptors of one path
+// are in flight at once.
+func burst4Jobs(tier string) []Job {
+	al := []string{"rm w/f", "R w/f", "touch w/f", "A w/f", "mv w/f w/g", "mv w/g w/f", "open w/f", "closefd w/f"}
+	var hs [][]string
+	var rec func(cur []string, n int)
+	rec = func(cur []string, n int) {
+		if len(cur) >= 3 {
+			hs = append(hs, []string{strings.Join(cur, " ;; "), "write w/f", "R w/f"})
+		}
+		if n == 0 {
+			return
+		}
+		for _, a := range al {
+			rec(append(append([]string{}, cur...), a), n-1)
+		}
+	}
+	rec(nil, 4)
+	return chunk(map[string]any{"fix": "std4", "init": []string{"A w/f"}, "tag09": "true"}, hs, nil, 150)
+}
+
 const seqRule = "E2: breadth-first search over operation sequences from the listed alphabet; each transition replays the sequence on a fresh directory and Watcher and applies one more operation to the real code against the real kernel, then lets reader and consumer run to quiescence; a state is the canonical form (filesystem picture by inode rank, both library tables with watch descriptors renamed to rank, kernel marks from /proc/self/fdinfo, cookie ring); the reference model is updated from API results, seam syscalls and the raw bytes of every kernel read and compared at every quiescence"
 
 func init() {
 	Checks["C04"] = &CheckDef{Prop: "C04", Rule: seqRule,
 		Technique: "explicit-state model checking of the real code: BFS over API/filesystem operation sequences with canonical-state deduplication against a reference watch-set model",
 		BFS:       func(tier string) []*BFSDef { return []*BFSDef{bfsC04(tier), bfsC04core(tier), bfsC12(tier)} },
+		Jobs:      burst4Jobs,
 		Assume:    []string{"reader/consumer run to quiescence after every operation (sequential histories)", "kernel inotify deterministic for sequential syscalls"}}
 	Checks["C09"] = &CheckDef{Prop: "C09", Rule: seqRule,
 		Technique: "explicit-state model checking of the real code: BFS over delete/rename/recreate/re-add histories with canonical-state deduplication against the reference model",
 		BFS:       func(tier string) []*BFSDef { return []*BFSDef{bfsC09(tier)} },
+		Jobs:      burst4Jobs,
 		Assume:    []string{"sequential histories with quiescence after each step"}}
 	Checks["C12"] = &CheckDef{Prop: "C12", Rule: seqRule,
 		Technique: "explicit-state model checking of the real code: BFS with the kernel's mark list (/proc/self/fdinfo) and the library tables compared with the reference model in every quiescent state; fixed point = all cycles",
 		BFS:       func(tier string) []*BFSDef { return []*BFSDef{bfsC12(tier), bfsC09(tier), bfsC04core(tier)} },
+		Jobs:      burst4Jobs,
 		Assume:    []string{"sequential histories with quiescence after each step"}}
 }
